@@ -437,4 +437,23 @@ fn main() {
     }
     writeln!(m, "];").unwrap();
     std::fs::write(Path::new(&out_dir).join("model_gen.rs"), m).unwrap();
+
+    // ---------------------------------------------------------------- errors_gen.rs (G4)
+    let path = format!("{REPO}/data/s3_error_codes.json");
+    println!("cargo:rerun-if-changed={path}");
+    let v: serde_json::Value = serde_json::from_str(&std::fs::read_to_string(&path).expect("read s3_error_codes.json")).expect("parse s3_error_codes.json");
+    let mut seen = std::collections::BTreeMap::new();
+    for (_section, list) in v.as_object().expect("sections") {
+        for e in list.as_array().expect("list") {
+            let code = e.get("code").and_then(|c| c.as_str()).unwrap_or("").to_owned();
+            let status = e.get("http_status_code").and_then(|c| c.as_u64());
+            seen.entry(code).or_insert(status);
+        }
+    }
+    let mut e = String::from("pub static ERROR_TABLE: &[(&str, Option<u16>)] = &[\n");
+    for (c, s) in &seen {
+        e.push_str(&format!("    ({c:?}, {}),\n", match s { Some(x) => format!("Some({x})"), None => "None".to_owned() }));
+    }
+    e.push_str("];\n");
+    std::fs::write(Path::new(&out_dir).join("errors_gen.rs"), e).unwrap();
 }
